@@ -410,6 +410,18 @@ def Tget_range_restriction_tag(T):
             else:
                 has_lt = False
 
+        # an exclusive bound that the published base type already has is not
+        # said again: libxml2 takes a repeated one for a looser one.
+        base = _check_extension_attrs(cls)
+        while base is not None and base.__type_name__ is ModelBase.Empty \
+                                            and base.__extends__ is not None:
+            base = base.__extends__
+        if base is not None:
+            if has_gt and base.Attributes.gt == cls.Attributes.gt:
+                has_gt = False
+            if has_lt and base.Attributes.lt == cls.Attributes.lt:
+                has_lt = False
+
         if has_gt:
             elt = etree.SubElement(restriction, XSD('minExclusive'))
             elt.set('value', prot.to_unicode(cls, cls.Attributes.gt))
